@@ -993,6 +993,12 @@ func (rl *Shell) viYankWholeLine() {
 
 	bpos, epos := rl.selection.Pos()
 
+	// Nothing to yank on an empty line.
+	if bpos < 0 || epos <= bpos {
+		rl.selection.Reset()
+		return
+	}
+
 	// If selection has a new line, remove it.
 	if (*rl.line)[epos-1] == '\n' {
 		epos--
